@@ -5,6 +5,7 @@ import (
 	"bytes"
 	"fmt"
 	"reflect"
+	"regexp"
 	"runtime"
 	"sort"
 	"strings"
@@ -121,13 +122,13 @@ func (c *checker) guard(stage string, f func()) (ok bool) {
 		c.progress(c.entry, stage)
 	}
 	defer func() {
-		c.stage = prev
-		if c.progress != nil {
-			c.progress(c.entry, prev)
-		}
 		if v := recover(); v != nil {
 			ok = false
 			c.panicFinding(v)
+		}
+		c.stage = prev
+		if c.progress != nil {
+			c.progress(c.entry, prev)
 		}
 	}()
 	f()
@@ -171,8 +172,21 @@ func (c *checker) panicFinding(v any) {
 	for i := strings.Index(short, ".func"); i >= 0; i = -1 {
 		short = short[:i] // closures: name the enclosing function
 	}
-	sig := "panic/" + short + "/" + ev.Normalize(msg)
+	sig := "panic/" + short + "/" + normalizePanic(msg)
 	c.report(sig, fmt.Sprintf("%s (stage %s) panics on %s: %s at %s (%s:%d)", c.entry, c.stage, quoteInput(c.src), msg, fn, trimPath(file), line))
+}
+
+var (
+	reBraces = regexp.MustCompile(`\{[^{}]*\}`)
+	reQuoted = regexp.MustCompile(`"(?:[^"\\]|\\.)*"`)
+)
+
+// normalizePanic: numbers and addresses (ev.Normalize), plus composite literals and
+// quoted text, which usually echo a piece of the input.
+func normalizePanic(msg string) string {
+	msg = reQuoted.ReplaceAllString(msg, `"…"`)
+	msg = reBraces.ReplaceAllString(msg, "{…}")
+	return ev.Normalize(msg)
 }
 
 func trimPath(p string) string {
@@ -229,13 +243,25 @@ func (c *checker) checkDiags(diags hcl.Diagnostics, phase string) {
 	}
 }
 
+// Positions that the JSON package derives by parsing a decoded string value as a template
+// (diagnostics of evaluation, the traversals of Variables()) form one class.
+const jsonTemplateKey = "json-string-template"
+
+// postKey names a range obtained after parsing (evaluation, static analysis).
+func (c *checker) postKey(native string) string {
+	if strings.HasPrefix(c.entry, "json.") {
+		return jsonTemplateKey
+	}
+	return native
+}
+
 func (c *checker) diagSigKey(d *hcl.Diagnostic, phase string) string {
 	json := strings.HasPrefix(c.entry, "json.")
 	switch {
 	case phase == "post" && json:
 		// every ranged diagnostic of evaluating a JSON expression comes from parsing a
 		// string value as a template at an offset inside the document
-		return "json-string-template-diag"
+		return jsonTemplateKey
 	case phase == "post":
 		return "eval-diag/" + c.diagKey(d)
 	case json:
